@@ -337,6 +337,9 @@ def r15_3(ctx: Ctx):
     fn = nbc.methods.get("_find_nearest_better")
     if fn is None:
         raise AnalysisError("NearestBetterClustering._find_nearest_better vanished (the nearest-better search is an anchor of R15.3)")
+    if len(fn.params()) < 3:
+        obs.append(ctx.ob("R15.3", fn, fn.node, status=INCONCLUSIVE, detail=f"_find_nearest_better takes {fn.params()[1:]}, not (individual, better individuals): the search is not in the form this rule reads", construct="nearest-better-signature"))
+        return obs
     i_p, b_p = fn.params()[1], fn.params()[2]
     fdefs = local_defs(fn)
     rets = [r for r in body_walk(fn.node) if isinstance(r, ast.Return)]
